@@ -439,7 +439,8 @@ class DTr(TB.BTr):
             if x is not None:
                 extra = s.test.values[1] if len(s.test.values) == 2 else ast.BoolOp(op=ast.Or(), values=s.test.values[1:])
         if x is not None:
-            if not (not rest or self.has_escape(s.body) or self.has_escape(s.orelse)):
+            if not (not rest or self.has_escape(s.body) or self.has_escape(s.orelse)
+                    or (s.body and isinstance(s.body[-1], ast.Raise))):
                 raise Untranslatable("`%s is None` test whose branches rejoin" % x)
             saved = dict(self.types)
             self.types.pop(x)        # in this branch the name holds None until it is assigned again
